@@ -188,18 +188,23 @@ class InterfaceLDM3:
         if self.ldm_service.ldm_maintenance.data_containers.exists("dataObjectID", data_provider.data_object_id):
             data_object_type_str = self.ldm_service.get_object_type_from_data_object(
                 data_provider.data_object)
-            if self.ldm_service.ldm_maintenance.data_containers.exists(
-                data_object_type_str, data_provider.data_object_id
+            # The stored record (timestamp, location, validity) is kept; only its content is
+            # replaced, and only by a data object of the same type as the stored one.
+            stored = self.ldm_service.ldm_maintenance.get_provider_data(
+                data_provider.data_object_id)
+            if stored is not None and data_object_type_str == self.ldm_service.get_object_type_from_data_object(
+                stored["dataObject"]
             ):
-                new_data_object_id = self.ldm_service.update_provider_data(
-                    data_provider.data_object_id, data_provider.data_object
+                updated = dict(stored)
+                updated["dataObject"] = data_provider.data_object
+                self.ldm_service.update_provider_data(
+                    data_provider.data_object_id, updated
                 )  # Update data
-                if new_data_object_id is not None:
-                    return UpdateDataProviderResp(
-                        data_provider.application_id,
-                        new_data_object_id,
-                        UpdateDataProviderResult(0),
-                    )
+                return UpdateDataProviderResp(
+                    data_provider.application_id,
+                    data_provider.data_object_id,
+                    UpdateDataProviderResult(0),
+                )
             return UpdateDataProviderResp(
                 data_provider.application_id,
                 data_provider.data_object_id,
